@@ -340,6 +340,65 @@ def r6(ctx, R, rule="C05.R6"):
         raise AnalysisError("C05.R6: no look-up of a type-spec name from an entity's parent found")
 
 
+def r7(ctx, R, rule="C05.R7"):
+    """`use m, only:` imports nothing; `use m` imports everything.  Every consumer
+    (find_in_scope, get_use_tree, completion) reads an *empty* ONLY collection as
+    "no ONLY clause", so the reader must record something for every item of a
+    present ONLY list - also for a blank one.  A filter in the loop that fills the
+    collection makes the two statements indistinguishable."""
+    R.rule(rule, "the USE reader records an entry for every item of a present ONLY list (no filter between the split and the add): an empty ONLY list must not look like an absent one", floor=1, confirmed=1)
+    use_cls = ctx.m.cname.get("Use")
+    n = 0
+    for f in sorted(ctx.m.funcs.values(), key=lambda g: g.qual):
+        if not f.rel.startswith("fortls/parsers/"):
+            continue
+        for c in calls_in(f.node):
+            if ctx.m.enclosing_func(c) is not f or not (isinstance(c.func, ast.Name) and ctx.m.resolve_class_name(f.rel, c.func.id) == use_cls):
+                continue
+            only = c.args[1] if len(c.args) > 1 else next((kw.value for kw in c.keywords if kw.arg == "only_list"), None)
+            if not isinstance(only, ast.Name):
+                continue
+            # how is the collection filled?
+            fills = [x for x in ctx.m.walk_own(f.node) if isinstance(x, ast.Call) and isinstance(x.func, ast.Attribute) and x.func.attr in ("add", "append") and isinstance(x.func.value, ast.Name) and x.func.value.id == only.id]
+            comps = [v for _, v in defs_of_local(ctx, f, only.id) if isinstance(v, (ast.SetComp, ast.ListComp)) or (isinstance(v, ast.Call) and v.args and isinstance(v.args[0], (ast.GeneratorExp, ast.ListComp, ast.SetComp)))]
+            if not fills and not comps:
+                continue
+            n += 1
+            for x in fills:
+                lp = ctx.m.parent.get(x)
+                path = [x]
+                while lp is not None and not isinstance(lp, (ast.For, ast.While)):
+                    path.append(lp)
+                    lp = ctx.m.parent.get(lp)
+                k = key(f, ctx.m.enclosing_stmt(x))[:90]
+                if lp is None:
+                    R.undecided(rule, f.short, k, loc(f, x), "the ONLY collection is not filled in a loop")
+                    continue
+                st = path[-1]  # the direct child of the loop body that holds the add
+                cond = any(isinstance(p_, (ast.If, ast.Try)) for p_ in path[1:])
+                idx = lp.body.index(st) if st in lp.body else -1
+                early = [s_ for s_ in lp.body[: max(idx, 0)] if any(isinstance(y, (ast.Continue, ast.Break)) for y in ast.walk(s_))]
+                if cond or early:
+                    R.violation(rule, f.short, k, loc(f, early[0] if early else x), "an item of the ONLY list can be skipped before it is recorded: for `use m, only:` (or a list of blanks) the collection stays empty, and every consumer reads an empty ONLY collection as 'no ONLY clause' - the whole module becomes accessible where nothing of it should be")
+                else:
+                    R.ok(rule, f.short, k, loc(f, x), "every split item is recorded")
+            for v in comps:
+                comp = v if isinstance(v, (ast.SetComp, ast.ListComp)) else v.args[0]
+                k = key(f, ctx.m.enclosing_stmt(comp))[:90]
+                if any(g_.ifs for g_ in comp.generators):
+                    R.violation(rule, f.short, k, loc(f, comp), "the ONLY collection is built with a filter: an empty ONLY list becomes indistinguishable from an absent one")
+                else:
+                    R.ok(rule, f.short, k, loc(f, comp), "every split item is recorded")
+    if n == 0:
+        raise AnalysisError(f"{rule}: no reader that builds a Use record from an ONLY list found")
+
+
+def defs_of_local(ctx, f, name):
+    from .shared import defs_of
+
+    return defs_of(ctx, f, name)
+
+
 def run(ctx, R):
     r1(ctx, R)
     r2(ctx, R)
@@ -347,3 +406,4 @@ def run(ctx, R):
     r4(ctx, R)
     r5(ctx, R)
     r6(ctx, R)
+    r7(ctx, R)
